@@ -179,6 +179,12 @@ func runCtl(j Job) Outcome {
 					Key: map[string]interface{}{"max": j.Max, "busy": busyBefore}})
 			}
 		}
+		// hits started (the targeter was consulted) whose result the consumer has not taken yet
+		if started := c.TargeterCalls(); uint64(started-len(o.Delivered)) > j.Max {
+			out.Findings = append(out.Findings, Finding{Kind: "inflight_exceeds_max",
+				What:     "more hits have started and not yet been taken by the consumer than max-workers",
+				Expected: "<= " + fmt.Sprint(j.Max), Observed: fmt.Sprintf("%d started, %d consumed", started, len(o.Delivered))})
+		}
 		if uint64(len(o.InTransport)) > j.Max {
 			out.Findings = append(out.Findings, Finding{Kind: "inflight_exceeds_max",
 				What: "more requests inside the transport than max-workers", Expected: "<= " + fmt.Sprint(j.Max), Observed: fmt.Sprint(len(o.InTransport))})
@@ -374,7 +380,13 @@ func runStress(j Job) Outcome {
 	var smu sync.Mutex
 	var swg sync.WaitGroup
 	slow := r.Intn(3) == 0
+	worstInFlight := int64(0)
 	for rr := range res {
+		// started is read AFTER the receive: every hit counted here had started before its result or a
+		// later one was taken, so started − consumed-before-this-receive is a lower bound of the true peak
+		if d := atomic.LoadInt64(&started) - int64(len(got)); d > worstInFlight {
+			worstInFlight = d
+		}
 		got = append(got, rr.Seq)
 		if slow && len(got)%17 == 0 {
 			time.Sleep(50 * time.Microsecond)
@@ -411,6 +423,11 @@ func runStress(j Job) Outcome {
 	if !ok {
 		out.Findings = append(out.Findings, Finding{Kind: "results_not_exactly_started_hits",
 			What: "stress: delivered sequence numbers are not exactly 0..n-1 for the n started hits", Expected: fmt.Sprintf("0..%d", n-1), Observed: fmt.Sprintf("%d results", len(got))})
+	}
+	if failAfter < 0 && uint64(worstInFlight) > j.Max+1 {
+		// +1: the hit whose result is being received right now may already have been replaced by a new one
+		out.Findings = append(out.Findings, Finding{Kind: "inflight_exceeds_max", What: "stress: hits started and not yet consumed above max-workers",
+			Expected: "<= " + fmt.Sprint(j.Max+1), Observed: fmt.Sprint(worstInFlight)})
 	}
 	if uint64(hwm) > j.Max {
 		out.Findings = append(out.Findings, Finding{Kind: "inflight_exceeds_max", What: "stress: concurrent transport entries above max-workers", Expected: "<= " + fmt.Sprint(j.Max), Observed: fmt.Sprint(hwm)})
